@@ -5,7 +5,7 @@ from ..ref import P, L, to32, le
 
 REQUIRED = ['n=0', 'n=1', 'straus', 'pippenger', 'corrupt:none', 'corrupt:msg', 'corrupt:key', 'corrupt:R', 'corrupt:S',
             'corrupt:S+l', 'corrupt:R-offcurve', 'shuffled', 'duplicated', 'len-mismatch', 'pos:first', 'pos:last', 'many', 'cancelling', 'dup-corrupted',
-            'adaptive-shift', 'z-observed', 'z-sensitivity:msg', 'z-sensitivity:key', 'z-sensitivity:R', 'z-sensitivity:S']
+            'crafted:R-identity', 'crafted:A-identity', 'crafted:R-undecodable-crafted-S', 'adaptive-shift', 'z-observed', 'z-sensitivity:msg', 'z-sensitivity:key', 'z-sensitivity:R', 'z-sensitivity:S']
 
 
 def okerr(x):
@@ -56,6 +56,35 @@ def corrupt(rng, e, kind, keys):
         raise ValueError(kind)
     n.ok = False if n.hard_err else ref.ed_verify_predicate(n.key, n.msg, n.sig)
     return n
+
+
+def crafted(rng, keys, kind):
+    """entries only the key holder can make, each of which makes one term of the batch equation vanish or go missing"""
+    seed, pk = rng.choice(keys)
+    a, _prefix = ref.ed_expand(seed)
+    msg = vals.rb(rng, rng.choice([0, 3, 17]))
+    if kind == 'R-identity':
+        # nonce 0: R is the identity (a canonical encoding of a point of the prime-order subgroup), S = h*a; valid
+        R = ref.ed_compress(ref.IDENT)
+        h = le(vals.sha512(R + pk + msg)) % L
+        e = Entry(pk, msg, R + to32(h * a % L))
+    elif kind == 'R-undecodable-crafted-S':
+        # R is no point at all but S = h*a, so that -zS*B + zh*A cancels if the R term is silently dropped
+        while True:
+            R = vals.rb(rng, 32)
+            if ref.ed_decompress(R) is None:
+                break
+        h = le(vals.sha512(R + pk + msg)) % L
+        return Entry(pk, msg, R + to32(h * a % L), ok=False, hard_err=True)
+    elif kind == 'A-identity':
+        # the identity as key: h*A vanishes, (R = rB, S = r) verifies for every message
+        pk = ref.ed_compress(ref.IDENT)
+        r = rng.randrange(1, L)
+        e = Entry(pk, msg, ref.ed_compress(ref.base_mul(r)) + to32(r))
+    else:
+        raise ValueError(kind)
+    e.ok = ref.ed_verify_predicate(e.key, e.msg, e.sig)
+    return e
 
 
 def emit(ctx, entries, cls):
@@ -188,6 +217,18 @@ def gen(ctx, sizes, reps):
                     rng.shuffle(b)
                     emit(ctx, b, ncl + ['corrupt:' + kind, 'shuffled'])
                     emit(ctx, b + [b[0]], ncl + ['corrupt:' + kind, 'duplicated'])
+            # crafted entries (valid: identity R, identity key; invalid: undecodable R with the S that cancels the rest) at
+            # each position of an otherwise honest batch, and batches made of such entries only
+            for kind in ('R-identity', 'A-identity', 'R-undecodable-crafted-S'):
+                pos = rng.randrange(n)
+                b = list(base)
+                b[pos] = crafted(rng, keys, kind)
+                emit(ctx, b, ncl + ['crafted:' + kind])
+                if rng.random() < 0.5:
+                    emit(ctx, base + [crafted(rng, keys, kind)], ncl + ['crafted:' + kind])
+            if n <= 7:
+                emit(ctx, [crafted(rng, keys, 'R-identity') for _ in range(n)], ncl + ['crafted:R-identity'])
+                emit(ctx, [crafted(rng, keys, 'A-identity') for _ in range(n)], ncl + ['crafted:A-identity'])
             gen_sensitivity(ctx, base, ncl, keys)
             if n >= 2:
                 gen_adaptive(ctx, base, ncl)
@@ -281,7 +322,7 @@ def run(prop, tier, seed, t0):
                             'with none / one (first, middle, last) / many / all entries corrupted in message, key, R, S, S+l, '
                             'off-curve R; each batch also shuffled, with a duplicated entry, called twice; slice-length mismatches; '
                             'the coefficients z_i observed at a hook: nonzero, distinct, repeatable, moving with every single component; '
-                            'an adaptive attacker reading them shifts two S values so that sum z_i S_i is unchanged and the batch must still reject; '
+                            'crafted entries (identity R from nonce 0, identity key, undecodable R whose S cancels the remaining terms); an adaptive attacker reading them shifts two S values so that sum z_i S_i is unchanged and the batch must still reject; '
                             'expected = conjunction of the single-verification predicate; every dispatch target forced',
                        required_classes=REQUIRED,
                        assumptions=['inputs stay in the property domain: keys and R canonical encodings of prime-order points',
